@@ -34,6 +34,7 @@ def run(ck):
       continue
     for opt in ("ds", "tf"):
       jobs.append({"opt": opt, "case": c, "seed": ck.seed * 1000 + i, "quick": quick, "eigh": bool((i // 2) % 2), "shard_leg": (i % 8 == 0),
+                   "middle": bool((i // 4) % 2),      # 2x2 layouts: every other one as (2b, 2, 2b)
                    "graft": {"ds": ["SGD", "RMSPROP", "ADAGRAD"][i % 3], "tf": ["SGD", "RMSPROP"][i % 2]}[opt]})
   ck.sample({"case_from_TLC": cases[3], "meaning": "blocked target, per-block scales, companion"})
   res = core.run_workers("harness.workers.blocks_indep", jobs, work=ck.work)
